@@ -108,6 +108,18 @@ Definition g_syn_step (n : nat) (low high : list T) (s : list T * list T) (lh : 
   '(th', h) <- g_conv_step n high (snd s) (snd lh) ;;
   Some ((tl', th'), l +' h).
 
+(* ---- freshly constructed states (Default::default / WithConfig::with_config), in the tuple shapes used above ---- *)
+Definition g_diff_init : option T := None.
+Definition g_int_init : T := zero.
+Definition g_ema_init : option T := None.
+Definition g_xm_init : option T * option T * option T := (None, None, None).
+Definition g_ab_init : T * option T := (zero, None).
+Definition g_k_init : T * option T := (zero, None).
+Definition g_mvw_init : (option T * list T * T) * (option T * list T * T) := (g_mean_init, g_mean_init).
+Definition g_mve_init : option T * option T := (None, None).
+Definition g_conv_init : list T := [].
+Definition g_wav_init : list T * list T := ([], []).
+
 (* ---- sinks: integrate.rs, mean.rs, mean_variance.rs ---- *)
 Definition g_sum_step (s : option T) (x : T) : option T * T :=
   let v := (match s with Some v => v | None => zero end) +' x in (Some v, v).
